@@ -1,23 +1,11 @@
 import DnsVerif.Model.Dec
+import DnsVerif.Spec.Bits
 
 /-! # `check_ipv4_addr` / `check_ipv6_addr` against the bit-level statement (C12 / C17 / C01)
 
 `checkPrefix octets p` (Model/Dec.lean) succeeds exactly when `p` is at most the address width and
 no address bit at a position `≥ p` is set; it never takes the panicking branch `octects[index]`; the
 error kind is determined by which of the two conditions fails. -/
-
-/-- bit `j` (0 = most significant) of an octet -/
-def obit (o : UInt8) (j : Nat) : Bool := (o.toNat / 2 ^ (7 - j)) % 2 == 1
-
-/-- bit `j` of the address, network order; `false` outside the address -/
-def abit (octets : Bytes) (j : Nat) : Bool :=
-  match octets[j / 8]? with
-  | some o => obit o (j % 8)
-  | none => false
-
-/-- no address bit at a position `≥ p` is set (stated without reference to the checking code) -/
-def NoBitBeyond (octets : Bytes) (p : Nat) : Prop :=
-  ∀ j, p ≤ j → j < 8 * octets.length → abit octets j = false
 
 set_option maxRecDepth 100000 in
 theorem mask_octet : ∀ (o : UInt8) (r : Fin 8),
